@@ -140,7 +140,7 @@ def d2_d3(chk: Check) -> None:
     chk.rule("C19-D2", "the decrypt call runs with the old key pair and the "
              "re-encrypt call with the new key pair", floor=2)
     chk.rule("C19-D3", "a value whose anchor was already rotated is skipped "
-             "before the decrypt call", floor=1)
+             "before the decrypt call", floor=2)
     main = c17.fn(prog, ROTATE, "main")
     chk.analysed(main)
     loop = _inner_loop(main)
@@ -208,10 +208,167 @@ def d2_d3(chk: Check) -> None:
         chk.ok("C19-D3", main, skip, "if " + src(skip.test),
                "seen anchors are skipped (continue) and new ones recorded "
                "before the decrypt call")
+        # anchor names are per document: the seen-list must start empty
+        # for every file, or a name met in one file suppresses the
+        # rotation of the secret so named in every later file
+        lst = src(skip.test.comparators[0])
+        file_loops = [a for a in ancestors(loop) if isinstance(a, ast.For)]
+        inits = [n for n in walk_local(main.node)
+                 if isinstance(n, (ast.Assign, ast.AnnAssign)) and
+                 src(n.targets[0] if isinstance(n, ast.Assign)
+                     else n.target) == lst]
+        per_file = [n for n in inits if file_loops and
+                    parent(n) is file_loops[-1] and
+                    n.value is not None and src(n.value) in ("[]", "list()",
+                                                             "set()")]
+        if per_file and file_loops:
+            chk.ok("C19-D3", main, per_file[0], src(per_file[0]),
+                   "seen-list emptied for each file, outside the per-value "
+                   "loop")
+        else:
+            chk.fail("C19-D3", main, inits[0] if inits else loop,
+                     "`{}` initialisation".format(lst),
+                     "the seen-anchor list is not re-initialised for each "
+                     "file: an anchor name met in an earlier file makes the "
+                     "same-named secret of a later file look already "
+                     "rotated, and it keeps its old keys")
     else:
         chk.fail("C19-D3", main, loop, "seen-anchor skip",
                  "values shared through an anchor are not skipped before "
                  "decryption: they would be rotated more than once")
+
+
+def d2b_fidelity(chk: Check) -> None:
+    """The plaintext travels: decrypt tool stdout -> decrypt_eyaml result
+    -> set_eyaml_value argument -> encrypt tool stdin.  On that way it may
+    lose the tool's line terminator (a trailing-whitespace trim) and
+    nothing else: no strip()/lstrip(), slicing, replace or re-casing."""
+    prog = chk.prog
+    chk.rule("C19-D2b", "between the decrypt tool's stdout and the encrypt "
+             "tool's stdin the plaintext is changed by at most a trailing-"
+             "whitespace trim", floor=5)
+    dec = prog.func("EYAMLProcessor.decrypt_eyaml")
+    enc = prog.func("EYAMLProcessor.encrypt_eyaml")
+    chk.analysed(dec)
+    chk.analysed(enc)
+
+    def chain(e: ast.AST) -> Tuple[List[str], ast.AST]:
+        """Method/attribute chain applied on top of a base expression."""
+        ops: List[str] = []
+        while True:
+            if isinstance(e, ast.Call) and isinstance(e.func, ast.Attribute):
+                ops.append(e.func.attr + "(" + ", ".join(
+                    src(a) for a in e.args) + ")")
+                e = e.func.value
+            elif isinstance(e, ast.Attribute):
+                ops.append("." + e.attr)
+                e = e.value
+            else:
+                return list(reversed(ops)), e
+
+    # 1. decrypt: what is made of run(...).stdout
+    runs = [c for c in walk_local(dec.node) if isinstance(c, ast.Call) and
+            src(c.func) == "run"]
+    if len(runs) != 1:
+        raise AnalysisError("decrypt tool invocation not found")
+    top: ast.AST = runs[0]
+    while isinstance(parent(top), (ast.Attribute, ast.Call)) and \
+            (getattr(parent(top), "value", None) is top or
+             getattr(parent(top), "func", None) is top):
+        top = parent(top)
+    ops, _ = chain(top)
+    text = "run(...)" + "".join("." + o.lstrip(".") for o in ops)
+    allowed = [o for o in ops if o == ".stdout" or o.startswith("decode(")
+               or o.startswith("rstrip(")]
+    if ops and allowed == ops and ".stdout" in ops:
+        chk.ok("C19-D2b", dec, top, text, "stdout, decoded, trailing trim "
+               "only")
+    else:
+        chk.fail("C19-D2b", dec, top, text,
+                 "the decrypted text is altered by {}: a secret with "
+                 "leading whitespace (or other affected text) is re-keyed "
+                 "to a different plaintext".format(
+                     [o for o in ops if o not in allowed]))
+    asg = parent(top)
+    rname = src(asg.target) if isinstance(asg, ast.AnnAssign) else (
+        src(asg.targets[0]) if isinstance(asg, ast.Assign) else None)
+    if rname is None:
+        raise AnalysisError("decrypted text variable not found")
+    later = [n for n in walk_local(dec.node)
+             if isinstance(n, (ast.Assign, ast.AnnAssign, ast.AugAssign))
+             and n is not asg and src(
+                 n.targets[0] if isinstance(n, ast.Assign) else n.target)
+             == rname]
+    rets = [r for r in walk_local(dec.node) if isinstance(r, ast.Return)
+            and r.value is not None and r.lineno > top.lineno]
+    if not later and rets and all(src(r.value) == rname for r in rets):
+        chk.ok("C19-D2b", dec, rets[-1], "return " + rname,
+               "returned as obtained")
+    else:
+        chk.fail("C19-D2b", dec, (later or rets or [dec.node])[0],
+                 "result of decrypt_eyaml",
+                 "the decrypted text is re-assigned or not returned as "
+                 "obtained")
+    # 2. encrypt: what is fed to the tool
+    value = enc.params()[1]
+    runs = [c for c in walk_local(enc.node) if isinstance(c, ast.Call) and
+            src(c.func) == "run"]
+    if len(runs) != 1:
+        raise AnalysisError("encrypt tool invocation not found")
+    inp = {k.arg: k.value for k in runs[0].keywords}.get("input")
+    from sa.coords import reaching_def
+    d = reaching_def(src(inp), runs[0]) if isinstance(inp, ast.Name) else inp
+    reassigned = [n for n in walk_local(enc.node)
+                  if isinstance(n, (ast.Assign, ast.AnnAssign, ast.AugAssign))
+                  and src(n.targets[0] if isinstance(n, ast.Assign)
+                          else n.target) == value]
+    if d is not None and not reassigned and \
+            src(d).replace('"', "'").startswith(value + ".encode("):
+        chk.ok("C19-D2b", enc, runs[0], "input=" + src(d),
+               "the caller's text, encoded, unmodified")
+    else:
+        chk.fail("C19-D2b", enc, runs[0], "input={}".format(
+            src(d) if d is not None else "?"),
+            "the text handed to the encrypt tool is not the caller's value "
+            "as given")
+    sv = prog.func("EYAMLProcessor.set_eyaml_value")
+    chk.analysed(sv)
+    svv = sv.params()[2]
+    ecalls = [c for c in walk_local(sv.node) if isinstance(c, ast.Call) and
+              src(c.func).endswith(".encrypt_eyaml")]
+    sv_touched = [n for n in walk_local(sv.node)
+                  if isinstance(n, (ast.Assign, ast.AugAssign)) and src(
+                      n.targets[0] if isinstance(n, ast.Assign)
+                      else n.target) == svv]
+    if len(ecalls) == 1 and ecalls[0].args and \
+            src(ecalls[0].args[0]) == svv and not sv_touched:
+        chk.ok("C19-D2b", sv, ecalls[0], src(ecalls[0])[:60],
+               "set_eyaml_value hands its value to encrypt_eyaml as given")
+    else:
+        chk.fail("C19-D2b", sv, sv.node, "set_eyaml_value -> encrypt_eyaml",
+                 "the value to store is altered before encryption")
+    # 3. the tool: decrypt result -> set_eyaml_value argument
+    main = c17.fn(prog, ROTATE, "main")
+    loop = _inner_loop(main)
+    decs = [n for n in walk_local(loop) if isinstance(n, ast.Assign) and
+            isinstance(n.value, ast.Call) and
+            src(n.value.func).endswith(".decrypt_eyaml")]
+    sets = [c for c in walk_local(loop) if isinstance(c, ast.Call) and
+            src(c.func).endswith(".set_eyaml_value")]
+    if len(decs) != 1 or len(sets) != 1:
+        raise AnalysisError("rotation decrypt/set pair not found")
+    tv = src(decs[0].targets[0])
+    touched = [n for n in walk_local(loop)
+               if isinstance(n, (ast.Assign, ast.AugAssign)) and
+               n is not decs[0] and src(
+                   n.targets[0] if isinstance(n, ast.Assign) else n.target)
+               == tv]
+    if len(sets[0].args) >= 2 and src(sets[0].args[1]) == tv and not touched:
+        chk.ok("C19-D2b", main, sets[0], "set_eyaml_value(<path>, {}, ...)"
+               .format(tv), "the decrypted text itself is re-encrypted")
+    else:
+        chk.fail("C19-D2b", main, sets[0], src(sets[0])[:60],
+                 "what is re-encrypted is not the text just decrypted")
 
 
 def d4_changed(chk: Check, model: CliModel) -> None:
@@ -329,6 +486,7 @@ def run(chk: Check) -> None:
     model = CliModel(chk.prog)
     d1_marker(chk)
     d2_d3(chk)
+    d2b_fidelity(chk)
     d4_changed(chk, model)
     d5_discovery(chk)
     d6_handlers(chk)
